@@ -227,3 +227,60 @@ def forwarding_obligations(ctx, wrapper_target, callee_target, exempt=()):
         if not ok:
             failures.append((name, p))
     return failures
+
+
+# ----------------------------------------------------------------------------- guard progress (necessary condition for termination)
+def guard_progress_obligations(ctx, modname, only_functions=None):
+    """For every `while` loop: the body must be able to change the truth of the guard or leave the
+    loop -- it assigns a name the guard reads, calls a method on / stores into an object the guard
+    reads, or contains break / return / raise.  A loop failing this either never runs or never ends.
+    This is a NECESSARY condition for termination (named `guard-progress`), not a termination proof."""
+    m = frontend.module(modname)
+    failures = []
+    for fn in ast.walk(m.tree):
+        if not isinstance(fn, ast.FunctionDef):
+            continue
+        if only_functions and fn.name not in only_functions:
+            continue
+        for loop in [n for n in ast.walk(fn) if isinstance(n, ast.While)]:
+            t0 = time.time()
+            guard_names = set(n.id for n in ast.walk(loop.test) if isinstance(n, ast.Name))
+            guard_roots = set()
+            for n in ast.walk(loop.test):
+                if isinstance(n, ast.Attribute):
+                    r = n
+                    while isinstance(r, ast.Attribute):
+                        r = r.value
+                    if isinstance(r, ast.Name):
+                        guard_roots.add(r.id)
+            const_true = isinstance(loop.test, ast.Constant) and bool(loop.test.value)
+            ok = False
+            for st in loop.body:
+                for n in ast.walk(st):
+                    if isinstance(n, (ast.Break, ast.Return, ast.Raise)):
+                        ok = True
+                    elif isinstance(n, (ast.Assign, ast.AugAssign)):
+                        for t in (n.targets if isinstance(n, ast.Assign) else [n.target]):
+                            for x in ast.walk(t):
+                                if isinstance(x, ast.Name) and x.id in guard_names:
+                                    ok = True
+                    elif isinstance(n, ast.Call):
+                        # a call may change the state of an object the guard reads (method call on it,
+                        # or passing it as an argument), or be a yield-like/step call on self
+                        f = n.func
+                        r = f
+                        while isinstance(r, ast.Attribute):
+                            r = r.value
+                        if isinstance(r, ast.Name) and (r.id in guard_names or r.id in guard_roots):
+                            ok = True
+                        for a in list(n.args) + [k.value for k in n.keywords]:
+                            if any(isinstance(x, ast.Name) and x.id in guard_names for x in ast.walk(a)):
+                                ok = True
+            name = "%s.%s.while@L%d.guard-progress" % (modname.split(".")[-1], fn.name, loop.lineno)
+            if const_true:
+                ok = ok  # `while True` needs an exit statement
+            ctx.obligation(name, "proved" if ok else "refuted", "effects", time.time() - t0, "%s:%s" % (modname, fn.name),
+                           detail=None if ok else "body of `while %s` neither changes anything the guard reads nor leaves the loop" % ast.unparse(loop.test)[:60])
+            if not ok:
+                failures.append((name, fn.name, loop.lineno, ast.unparse(loop.test)))
+    return failures
